@@ -42,12 +42,12 @@ def strategy(tier):
     geom = st.tuples(st.one_of(st.integers(1, 8), st.integers(1, 60)),
                      st.one_of(st.sampled_from([0.5, 0.3, 0.1, 0.05, 0.01, 0.001]), gen.fpr_st(9.0)))
     rel = st.sampled_from(["compat", "compat", "compat", "identical", "empty", "geom", "geom_bits", "hash", "foreign"])
-    common = {"rel": rel, "hash": gen.hash_name_st(), "hash2": gen.hash_name_st(), "pool": gen.pool_st(2, 10),
+    common = {"rel": rel, "hash": gen.hash_name_st(gen.ALL_HASHES + ["textonly"]), "hash2": gen.hash_name_st(gen.ALL_HASHES + ["textonly"]), "pool": gen.pool_st(2, 10),
               "sa": so.stream_st(False), "sb": so.stream_st(False), "foreign": st.integers(0, 5),
               "sx": so.stream_st(False, max_len=5), "derive": st.sampled_from([None, None, "ia", "ua", "ib", "ub"]),
               "round2": st.sampled_from([None, None, "a", "b"]),
               "va": st.sampled_from(so.OPERAND_VARIANTS), "vb": st.sampled_from(so.OPERAND_VARIANTS), "nudge": st.sampled_from([0, 0, 0, 1]),
-              "frac": st.sampled_from([0, 0, 0, 0, 0, 0.5, 0.25]), "fixed8": st.booleans()}
+              "frac": st.sampled_from([0, 0, 0, 0, 0, 0.5, 0.25]), "fixed8": st.booleans(), "fresh_hf": st.booleans()}
     bloom = st.fixed_dictionaries(dict(common, t=st.just("bloom"), geom=geom, geom2=geom,
                                        ka=st.sampled_from(["bloom", "ondisk"]), kb=st.sampled_from(["bloom", "ondisk"])))
     cb = st.fixed_dictionaries(dict(common, t=st.just("cbloom"), geom=geom, geom2=geom))
